@@ -302,15 +302,37 @@ let decode_mode path =
    with End_of_file -> ());
   close_in ic
 
+(* -bl: lines "hexraw|chars|ranges|classes|ic|inv"; prints the model's Basic-Latin table and
+   whether it agrees with the general matching procedure on all 128 runes *)
+let bl_mode path =
+  let ic = open_in path in
+  (try
+     while true do
+       let line = input_line ic in
+       match String.split_on_char '|' line with
+       | raw :: chars :: ranges :: classes :: icf :: invf :: _ ->
+           let ints s = List.filter_map (fun x -> if x = "" then None else Some (z_of_int (int_of_string x))) (String.split_on_char ' ' s) in
+           let cls = List.filter_map (fun x -> if x = "" then None else Some (bytes_of_str (unhex ("x" ^ x)))) (String.split_on_char ' ' classes) in
+           let t = basic_latin ulib (ints chars) (ints ranges) cls (icf = "1") in
+           let ok = table_agrees_b ulib (ints chars) (ints ranges) cls (icf = "1") (invf = "1") in
+           Printf.printf "%s %s %d\n" raw (String.concat "" (List.map (fun b -> if b then "1" else "0") t)) (if ok then 1 else 0)
+       | _ -> ()
+     done
+   with End_of_file -> ());
+  close_in ic
+
 let () =
-  let tables = ref "" and cases = ref "" and fuel = ref 4000 and dec = ref "" in
+  let tables = ref "" and cases = ref "" and fuel = ref 4000 and dec = ref "" and bl = ref "" in
   Arg.parse [ ("-tables", Arg.Set_string tables, "unicode tables file");
               ("-cases", Arg.Set_string cases, "case file");
+              ("-bl", Arg.Set_string bl, "file of classes: print Basic-Latin tables of the model");
               ("-decode", Arg.Set_string dec, "file of hex strings: print decode results");
               ("-quirks", Arg.String set_quirks, "4 bits: lit_eof stale_ctx recover_scope memo_nocharge (default 1111 = faithful)");
               ("-ref", Arg.Set ref_mode, "evaluate the specification (Ref) instead of the implementation model");
               ("-fuel", Arg.Set_int fuel, "fuel") ] (fun _ -> ()) "driver";
   if !dec <> "" then (decode_mode !dec; exit 0);
+  if !tables <> "" then load_tables !tables;
+  if !bl <> "" then (bl_mode !bl; exit 0);
   if !tables <> "" then load_tables !tables;
   let ic = open_in_bin !cases in
   (try
